@@ -43,11 +43,13 @@ func parseOut(s string) M {
 		out["version"] = int(addr.Version())
 		b := addr.Bytes()
 		out["hash"] = vInts(b[1:])
+		vKeep("Address.Bytes result", b) // kept by the caller while it goes on using the package
 		var r string
 		var e2 error
 		p2 := vCatch(func() { r, e2 = Bech32(pre, addr) })
 		out["reenc_ok"] = e2 == nil && p2 == ""
 		out["reenc"] = vInts([]byte(r))
+		vKeepStr("address.Bech32 result", r)
 	}
 	return out
 }
@@ -73,6 +75,7 @@ func vRun(op string, in M) M {
 		var s string
 		var err error
 		p := vCatch(func() { s, err = Bech32(Prefix(pre), mkAddr(ver, hash)) })
+		vKeepStr("address.Bech32 result", s)
 		out := M{"ok": err == nil && p == "", "str": vInts([]byte(s)), "panic": p}
 		po := parseOut(s)
 		out["parse_ok"], out["parse_prefix"], out["parse_version"], out["parse_hash"] = po["ok"], po["prefix"], po["version"], po["hash"]
